@@ -1,7 +1,8 @@
 import Adlt.Ft.AutoSave
 import Adlt.Util.Parse
 /-! glue. case: `<serial>,<nr>,<buf>,<last>,<label> … | S serial size nr buf;D serial pkg len fill;F serial;O …`
-    (label: 0 = no fault, 1 = duplicates only, 2 = damaging fault (drop/swap/resize/renumber a data package), 3 = other)
+    (label: 0 = no fault, 1 = duplicates only, 2 = damaging fault (drop/swap/resize/renumber a data package), 3 = other,
+    4 = all packages in order but the announced size is not the size of the file)
     obs per transfer in creation order: `serial:state:len:hash` (len/hash of what `save` wrote; 0 when not complete) -/
 namespace Ftm
 open Util
@@ -64,8 +65,10 @@ def oracle (metas : List Meta) (obs : List TObs) : String :=
     if m.label != 3 && os.any (fun o => o.state == "C" && !completeOk o) then some "FAIL:damaged-content-saved-as-complete"
     else if (m.label == 0 || m.label == 1) && !(os.any (fun o => o.state == "C")) then some "FAIL:in-order-transfer-not-complete"
     else if m.label == 2 && os.any (fun o => o.state == "C") then some "FAIL:faulty-transfer-reported-complete"
+    else if m.label == 4 && os.any (fun o => o.state == "C") then some "FAIL:transfer-of-inconsistent-size-reported-complete"
     else none
   if obs.any (fun o => o.state.startsWith "C!") then "C17=FAIL:list-entry-saves-content-of-another-transfer" else
+  if obs.any (fun o => o.state.startsWith "C?") then "C17=FAIL:complete-transfer-cannot-be-saved" else
   match bad with
   | [] => "C17=ok"
   | e :: _ => "C17=" ++ e
